@@ -221,9 +221,9 @@ DEFAULT_OPTS = dict(neg=True, preds=True, member=True, calls=True, index=True, s
 def _num_paths(kind):
     if kind in ("P", "E"):
         return [[["a", "a"]], [["a", "b"]], [["a", "d"], ["i", "k"]], [["c", "inc", []]], [["c", "getb", []]],
-                [["a", "t"], ["i", 0]], [["c", "pt", []], ["a", "x"]]]
+                [["a", "t"], ["i", 0]], [["c", "pt", []], ["a", "x"]], [["a", "u"]]]
     return [[["a", "a"]], [["a", "b"]], [["a", "p"], ["a", "a"]], [["a", "p"], ["a", "b"]], [["c", "inc", []]],
-            [["a", "p"], ["a", "d"], ["i", "k"]], [["c", "pt", []], ["a", "x"]]]
+            [["a", "p"], ["a", "d"], ["i", "k"]], [["c", "pt", []], ["a", "x"]], [["a", "u"]]]
 
 
 def gen_num(rng, kinds, o, allow_lit=True):
